@@ -1856,8 +1856,11 @@ process(PseudoTcpSocket *self, Segment *seg)
       return FALSE;
     }
 
+    /* The segment must also fit in the receive buffer: it is trimmed to the
+     * available space further down and the rest has to be retransmitted. */
     received_fin = (priv->rcv_nxt != 0 && seg->seq == priv->rcv_nxt &&
-        priv->rcv_nxt + seg->len == priv->rcv_fin);
+        priv->rcv_nxt + seg->len == priv->rcv_fin &&
+        seg->len <= pseudo_tcp_fifo_get_write_remaining (&priv->rbuf));
 
     /* Update the state machine, implementing all transitions on ‘rcv FIN’ or
      * ‘rcv ACK of FIN’ from RFC 793, Figure 6; and RFC 1122, §4.2.2.8. */
